@@ -305,6 +305,15 @@ fn case_conv(target: &str, rng: &mut Rng) -> Option<(String, String, String, usi
     match target {
         "normalize_weak_head" => {
             let mut fuel = 400u32;
+            // now and then a DEEP computation (several hundred nested calls of the normaliser): `id (id (.. (id 7)))`
+            let (t, real_t, tag) = if rng.below(4000) == 0 {
+                let id = R::Node(K::Lambda(false), vec![R::Node(K::Integer, vec![]), R::Var(0)]);
+                let mut d = R::Node(K::Lit(BigInt::from(7)), vec![]);
+                for _ in 0..(300 + rng.below(200)) { d = R::Node(K::App, vec![id.clone(), d]); }
+                fuel = 20000;
+                let r = from_r(&d);
+                (d, r, " [deep]")
+            } else { (t, real_t, tag) };
             let with_defs = rng.below(2) == 0;
             let rctx = gen_ctx(rng, with_defs);
             let want = reference::r_whnf(&t, &rctx, &mut fuel)?;   // skipped when the reference runs out of fuel (possible divergence)
